@@ -67,6 +67,33 @@ impl<D: TextDecorator> TextRenderer<D> {
         Ok(())
     }
 
+    /// Cheap scalar projection of the renderer state, for trace validation.
+    #[cfg(html2text_verif)]
+    pub(crate) fn verif_probe(&self) -> [i64; 17] {
+        let top = self.subrender.last().expect("Underflow in renderer stack");
+        let mut p = [0i64; 17];
+        p[0] = self.subrender.len() as i64;
+        p[1] = top.width.min(i32::MAX as usize) as i64;
+        p[2] = top.lines.len() as i64;
+        p[3] = top.at_block_end as i64;
+        p[4] = top.ann_stack.len() as i64;
+        p[5] = top.pre_depth as i64;
+        p[6] = top.ws_stack.len() as i64;
+        p[7] = top.text_filter_stack.len() as i64;
+        p[8] = top.pending_frags.len() as i64;
+        if let Some(w) = &top.wrapping {
+            p[9] = 1;
+            p[10] = w.width.min(i32::MAX as usize) as i64;
+            p[11] = w.text.len() as i64;
+            p[12] = w.line.len as i64;
+            p[13] = w.wordlen as i64;
+            p[14] = w.wslen as i64;
+            p[15] = w.pre_wrapped as i64;
+        }
+        p[16] = self.links.len() as i64;
+        p
+    }
+
     /// Push a new builder onto the stack
     pub fn push(&mut self, builder: SubRenderer<D>) {
         self.subrender.push(builder);
